@@ -2,6 +2,7 @@
 # usage: tools/harmless_process.sh C04 h2 -> confirm, file under /verif/harmless/C04-h2, remove scratch worktree, silence matrix
 p=$1; tag=$2; id=$p-$tag
 cd "$(dirname "$0")/.."
+[ -d /tmp/mut-$p-$tag.out ] || { echo "no candidate for $id"; exit 0; }
 tools/harmless_confirm.sh /tmp/mut-$p-$tag.out $id > /root/scratch/hconfirm-$id.log 2>&1
 git -C /repo worktree remove --force /tmp/mut-$p-$tag 2>/dev/null
 rm -rf /tmp/mut-$p-$tag.out /tmp/confirm-$id-*
